@@ -242,3 +242,46 @@ Definition ha_realloc (c : hcfg) (s : hastate) (p newsize oldsize : Z) : hres (h
   | HPanic => HPanic
   | HFuel => HFuel
   end.
+
+(* ---------- payload contents (address -> byte), as for the arena ----------
+   The allocator touches payload bytes only in realloc's memory.copy(newp, p, head.size) when it
+   moves a block, and in the zeroing wrappers alloc0/realloc0 of Allocator_implement_interface. *)
+Record hbstate := mkhb { hb_st : hastate; hb_bytes : Z -> Z }.
+
+Definition hb_alloc (c : hcfg) (s : hbstate) (size : Z) : hres (hbstate * Z) :=
+  match ha_alloc c (hb_st s) size with
+  | HOk (s', p) => HOk (mkhb s' (hb_bytes s), p)
+  | HPanic => HPanic
+  | HFuel => HFuel
+  end.
+
+Definition hb_alloc0 (c : hcfg) (s : hbstate) (size : Z) : hres (hbstate * Z) :=
+  match hb_alloc c s size with
+  | HOk (s', p) =>
+      if p =? 0 then HOk (s', p) else HOk (mkhb (hb_st s') (bzero (hb_bytes s') p size), p)
+  | HPanic => HPanic
+  | HFuel => HFuel
+  end.
+
+(* size of the chunk that owns payload pointer p (head.size in Heap:realloc) *)
+Definition chunk_size_of (s : hastate) (p : Z) : Z := size_at (ha_chunks s) (w64 (p - NODE)).
+
+Definition hb_realloc (c : hcfg) (s : hbstate) (p newsize oldsize : Z) : hres (hbstate * Z) :=
+  match ha_realloc c (hb_st s) p newsize oldsize with
+  | HOk (s', q) =>
+      let moved := negb (p =? 0) && negb (q =? 0) && negb (q =? p) in
+      let bts := if moved then bcopy (hb_bytes s) q p (chunk_size_of (hb_st s) p) else hb_bytes s in
+      HOk (mkhb s' bts, q)
+  | HPanic => HPanic
+  | HFuel => HFuel
+  end.
+
+Definition hb_realloc0 (c : hcfg) (s : hbstate) (p newsize oldsize : Z) : hres (hbstate * Z) :=
+  match hb_realloc c s p newsize oldsize with
+  | HOk (s', q) =>
+      if (newsize >? oldsize) && negb (q =? 0)
+      then HOk (mkhb (hb_st s') (bzero (hb_bytes s') (q + oldsize) (newsize - oldsize)), q)
+      else HOk (s', q)
+  | HPanic => HPanic
+  | HFuel => HFuel
+  end.
